@@ -203,6 +203,17 @@ def coq_make(targets: Sequence[str] | None = None, jobs: int = 16, timeout: int 
         lock.close()
 
 
+_BUILT: set[str] = set()
+
+
+def ensure_built(requires: Sequence[str]) -> None:
+    """build (full .vo) the listed OG modules unless this process already did"""
+    todo = [r for r in requires if r not in _BUILT and (COQ / (r.replace(".", "/") + ".v")).exists()]
+    if todo:
+        coq_make([r.replace(".", "/") + ".vo" for r in todo])
+        _BUILT.update(todo)
+
+
 def coqc_file(path: Path, extra_q: Sequence[tuple[str, str]] = (), timeout: int = 300, cwd: Path | None = None) -> tuple[bool, str]:
     cmd = ["timeout", str(timeout), "coqc", "-q", "-w", "-notation-overridden,-deprecated-hint-without-locality",
            "-Q", str(COQ), LOGICAL]
@@ -306,6 +317,9 @@ def coq_eval_failures(requires: Sequence[str], case_type: str, check_fn: str, ca
     model's result with the implementation's recorded result) on every case.
     Returns indices of cases for which it is false, and the concatenated logs.
     One coqc process per shard, run in parallel."""
+    # the case modules are not in the build closure of Props/<id>.v: build them on demand, so that a check also
+    # works on a tree on which `./check --setup` was not run
+    ensure_built(requires)
     files = []
     offsets: dict[str, int] = {}
     for k in range(0, len(cases), shard):
@@ -356,6 +370,7 @@ def coq_eval_failures(requires: Sequence[str], case_type: str, check_fn: str, ca
 def coq_eval_terms(requires: Sequence[str], terms: Sequence[str], scratch: Path, tag: str = "ev",
                    timeout: int = 300) -> list[str]:
     """Evaluate each term with vm_compute and return the printed values (flattened text)."""
+    ensure_built(requires)
     body = ["From Coq Require Import ZArith QArith List String Bool.", "Import ListNotations.", "Open Scope Z_scope."]
     body += [f"From {LOGICAL} Require Import {r}." for r in requires]
     for i, t in enumerate(terms):
